@@ -133,3 +133,44 @@ def replay_case(case, per_case):
 
 def flatten(tree, cfg):
     return optree.tree_flatten(tree, **kw_of(cfg))
+
+
+KIND_NAMES = {
+    'leaf': 'LEAF', 'none': 'NONE', 'tuple': 'TUPLE', 'list': 'LIST', 'dict': 'DICT',
+    'namedtuple': 'NAMEDTUPLE', 'odict': 'ORDEREDDICT', 'ddict': 'DEFAULTDICT', 'deque': 'DEQUE',
+    'structseq': 'STRUCTSEQUENCE', 'custom': 'CUSTOM',
+}
+
+
+def spec_vs_desc(spec, desc, path='$'):
+    """None if the engine treespec has exactly the reference structure, else a description."""
+    if spec.kind.name != KIND_NAMES[desc.kind]:
+        return f'{path}: kind {spec.kind.name} vs {KIND_NAMES[desc.kind]}'
+    if desc is STAR:
+        if not spec.is_leaf() or spec.num_nodes != 1 or spec.num_leaves != 1:
+            return f'{path}: leaf spec inconsistent'
+        return None
+    if spec.type is not desc.type:
+        return f'{path}: type {spec.type} vs {desc.type}'
+    if spec.num_children != desc.arity:
+        return f'{path}: arity {spec.num_children} vs {desc.arity}'
+    if spec.num_leaves != desc.num_leaves or spec.num_nodes != desc.num_nodes:
+        return f'{path}: counts ({spec.num_leaves},{spec.num_nodes}) vs ({desc.num_leaves},{desc.num_nodes})'
+    ents = spec.entries()
+    if len(ents) != len(desc.entries) or not all(
+        type(a) is type(b) and a == b for a, b in zip(ents, desc.entries)
+    ):
+        return f'{path}: entries {ents!r} vs {list(desc.entries)!r}'
+    for i, (c, d) in enumerate(zip(spec.children(), desc.children)):
+        r = spec_vs_desc(c, d, f'{path}/{i}')
+        if r:
+            return r
+    return None
+
+
+def outcome_of(fn):
+    """('ok', value) or ('exc', exception type name)."""
+    try:
+        return ('ok', fn())
+    except Exception as ex:  # noqa: BLE001
+        return ('exc', type(ex).__name__)
